@@ -114,6 +114,47 @@ def make_server_tty(script, retries, delay, clock, trace, bauds=(115200, None)):
     return srv
 
 
+def make_server_gpsd(script, retries, delay, clock, trace, devices=('/dev/ttyS3', None)):
+    """The real gpsd backend (ubxlib.server.GnssUBlox) over scripted sockets. devices = (device gpsd lists first, requested or None)."""
+    import json
+    from . import backends as BK
+    import ubxlib.server_base as SB
+    SB.time = clock
+    listed = [devices[0], '/dev/other0']
+    if devices[1] is not None and devices[1] not in listed:
+        listed.append(devices[1])
+    hs = [b'{"class":"VERSION","release":"3.25","rev":"3.25","proto_major":3,"proto_minor":15}\r\n',
+          json.dumps({'class': 'DEVICES', 'devices': [{'class': 'DEVICE', 'path': p_, 'driver': 'u-blox'} for p_ in listed]}).encode() + b'\r\n']
+    BK.ScriptSocket.st = {'clock': clock, 'trace': trace, 'pending': [], 'future': [], 'idle': script['idle'], 'handshake': hs, 'tx_dt': script.get('tx_dt', 0)}
+    srv, SV = BK.gpsd_server(devices[1], BK.ScriptSocket)
+    srv.setup()
+    st = BK.ScriptSocket.st
+    st['handshake'] = []
+    st['pending'] = list(script['pending'])
+    st['future'] = [(ok_, list(evs)) for ok_, evs in script['attempts']]
+    srv.set_retries(retries)
+    srv.set_retry_delay(delay)
+    for what, val in script.get('bad_cfg', ()):
+        try:
+            (srv.set_retries if what == 'retries' else srv.set_retry_delay)(val)
+        except AssertionError:
+            pass
+    return srv
+
+
+def chunk128(script):
+    """The same receiver behaviour as recv(128) delivers it: longer events come in pieces of 128 bytes; empty reads are timeouts."""
+    def split(evs):
+        out = []
+        for d, dt in evs:
+            if not d:
+                out.append((None, dt))
+            else:
+                out += [(d[k:k + 128], dt if k == 0 else 0) for k in range(0, len(d), 128)]
+        return out
+    return dict(script, pending=split(script['pending']), attempts=[(ok, split(evs)) for ok, evs in script['attempts']], drain=False)
+
+
 def bytewise(script):
     """The same receiver behaviour delivered one byte per read (what a serial line gives); empty reads are timeouts."""
     def split(evs):
@@ -178,6 +219,8 @@ def run_impl(script, retries, delay, reqs, loglevel=None, backend='stub', bauds=
     trace = []
     if backend == 'tty':
         srv = make_server_tty(script, retries, delay, clock, trace, bauds)
+    elif backend == 'gpsd':
+        srv = make_server_gpsd(script, retries, delay, clock, trace, bauds)
     else:
         srv = make_server(script, retries, delay, clock, trace)
     out = []
@@ -209,6 +252,12 @@ def run_impl(script, retries, delay, reqs, loglevel=None, backend='stub', bauds=
             finally:
                 signal.alarm(0)
             port = f' port={srv.serial_port.baudrate}/{srv.serial_port.n_sent - sent0}' if backend == 'tty' else ''
+            if backend == 'gpsd':
+                from . import backends as BK_
+                want = b'&' + (bauds[1] or bauds[0]).encode()
+                if any(h != want for h in BK_.ScriptSocket.st.get('heads', [])):
+                    res += '+WRONG-DEVICE'
+                BK_.ScriptSocket.st['heads'] = []
             out.append(f'{res} dt={clock.ms - t0}{port} trace={trace_tokens(trace)}')
     finally:
         signal.signal(signal.SIGALRM, old)
